@@ -303,8 +303,22 @@ func init() {
 	mon.Register(p)
 }
 
+var c15PushUses uint64
+
 func c15JudgePos(c *mon.Ctx, in *c15Pos) {
 	c.Eval(2) // one evaluation per network
+	// what any caller of the public push-data helpers does: take the prefix for an item and
+	// append the item to it (the result is the caller's) - before anything is built from an address
+	mon.TryQuiet(func() {
+		item := bytes.Repeat([]byte{0x33}, 1+int(c15PushUses%75))
+		c15PushUses++
+		if p, err := bscript.PushDataPrefix(item); err == nil {
+			_ = append(p, item...)
+		}
+		if parts, err := bscript.EncodeParts([][]byte{item}); err == nil {
+			_ = append(parts, item...)
+		}
+	})
 	h := []byte(in.Hash)
 	var key []byte
 	var pub *bec.PublicKey
